@@ -10,7 +10,7 @@ import (
 
 func init() {
 	register("C06", []string{"./src/core/...", "./src/cmap/..."}, checkC06)
-	register("C25", []string{"./src/gc/...", "./src/core/..."}, checkC25)
+	register("C25", []string{"./src/..."}, checkC25)
 }
 
 // capturedMaps: locals of outer that are maps and are used by the closure g.
@@ -566,6 +566,23 @@ func checkC25(p *Prog, r *Report) {
 			r.check(prov[k], rule, "root: "+k, p.pos(ttr.Pos()), fnName(ttr), "an addTarget call takes such a target", "no addTarget call for "+k+": they and what they depend on can be proposed for removal")
 		}
 	}
+	// (2a) the roots are found by ranging over the graph's packages and by walking the tree for `...`: neither may lose
+	// a package. PackageMap keys keep the subrepo apart from the name; the BUILD-file walker's prefix tests are bounded.
+	if pm := p.Fn("core", "BuildGraph.PackageMap"); pm == nil {
+		r.unresolved("E10.gc-root-table", "core.BuildGraph.PackageMap")
+	} else {
+		okKey := false
+		eachInstr(pm, false, func(_ *ssa.Function, i ssa.Instruction) {
+			if mu, ok := i.(*ssa.MapUpdate); ok {
+				tg := tagsOf(mu.Key, SliceOpts{})
+				if tg["core.Package.SubrepoName"] && tg["core.Package.Name"] {
+					okKey = true
+				}
+			}
+		})
+		r.check(okKey, "E10.gc-root-table", "PackageMap keys distinguish a subrepo's package from the host package of the same name", p.pos(pm.Pos()), fnName(pm), "the key is built from both SubrepoName and Name", "PackageMap is keyed by the package name alone: a subrepo package and a host package with the same name (the root package \"\" is the usual case) collapse into one entry, the other one's registered subincludes are never seen as GC roots, and the subincluded build_defs and what they depend on are proposed for removal")
+	}
+	importRules(p, r, checkC22, "plz/", "E1.prefixbound", "E7.blacklist-operand")
 	// (2b) the public dependencies of a test: a hidden sub-target of the same rule is looked through, at any depth
 	if pd := p.Fn("gc", "publicDependencies"); pd == nil {
 		r.unresolved("E5.same-rule-lookthrough", "gc.publicDependencies")
